@@ -105,6 +105,18 @@ func sameSet(a, b map[int64]bool) bool {
 func runC15(c *Ctx) {
 	p := c.P
 	w := wsAnchor(p)
+	// the function that verifies a frame and routes it to the control or data handler: handleFrame itself, or the
+	// unexported helper it delegates that part to
+	route := w.handleFrame
+	if len(callsToFn(route, w.handleControl)) == 0 {
+		eachInstr(w.handleFrame, func(in ssa.Instruction) {
+			if call, ok := in.(*ssa.Call); ok {
+				if h := call.Call.StaticCallee(); isHelperOf(w.handleFrame, h) && len(callsToFn(h, w.handleControl)) > 0 {
+					route = h
+				}
+			}
+		})
+	}
 	ws := "codec/websocket"
 	opT := p.Named(ws, "Opcode")
 	opM := func(n string) *ssa.Function { return p.Method(ws, "Opcode", n) }
@@ -218,7 +230,7 @@ func runC15(c *Ctx) {
 	}
 	{
 		// routing in handleFrame: IsControl decides the handler
-		fn := w.handleFrame
+		fn := route
 		okCtl, okData := false, false
 		for _, call := range callsToFn(fn, w.handleControl) {
 			for _, l := range guardsOf(call.(ssa.Instruction).Block()) {
@@ -278,7 +290,7 @@ func runC15(c *Ctx) {
 		}
 	}
 	{
-		fn := w.handleFrame
+		fn := route
 		vcalls := callsToFn(fn, w.verifyFrame)
 		for _, h := range []*ssa.Function{w.handleControl, w.handleData} {
 			for _, call := range callsToFn(fn, h) {
@@ -508,7 +520,7 @@ func runC15(c *Ctx) {
 					continue
 				}
 				for _, leaf := range phiLeaves(resolveCell(path.eval(x, l.At))) {
-					if call, ok := resolveCell(leaf).(*ssa.Call); ok && isCallToFn(call, w.verifyFrame, w.handleControl, w.handleData) {
+					if call, ok := resolveCell(leaf).(*ssa.Call); ok && isCallToFn(call, w.verifyFrame, w.handleControl, w.handleData, route) {
 						swallowed = path.String()
 					}
 				}
@@ -519,7 +531,7 @@ func runC15(c *Ctx) {
 	// who may report a framing violation: only the checks under handleFrame, so that the response above applies. The
 	// decoder (or any other layer) returning one of these errors by-passes the Close(1002) / no-more-writes reaction.
 	{
-		allowed := map[*ssa.Function]bool{w.verifyFrame: true, w.handleControl: true, w.handleData: true, w.handleFrame: true}
+		allowed := map[*ssa.Function]bool{w.verifyFrame: true, w.handleControl: true, w.handleData: true, w.handleFrame: true, route: true}
 		violationErrs := []string{"ErrNonZeroReservedBits", "ErrReservedOpcode", "ErrMaskedFramesFromServer", "ErrUnmaskedFramesFromClient", "ErrInvalidControlFrame", "ErrControlFrameTooBig"}
 		n := 0
 		for _, name := range violationErrs {
